@@ -109,6 +109,7 @@ CHECKS.update({
 
 EXTRA_TECHNIQUE = {
  "C04": "; the wheel slots as intrusive lists: TLA+ spec List.tla (pointer grain, two link sets) model-checked by TLC, TLC walks (ListSim) replayed into real List objects and every call's read-back state validated by TLC (ListTrace); the code's own ticker in real time (idle periods, busy store) validated by TLC against RealTick.tla; busy-tick scenario (policy lock busy at the instant the ticker fires) validated by StoreTrace",
+ "C06": "; entry pool: TLA+ spec PoolWheel.tla (one entry object between the building and the application of its events) model-checked by TLC, the design before D22 must violate both invariants; bound by the pool histories validated by StoreTrace / HybridTrace",
  "C07": "; the region lists themselves: TLA+ spec List.tla (pointer grain: links, recorded size and count, region bits) model-checked by TLC, TLC walks (ListSim) replayed into real List objects and validated by TLC (ListTrace)",
  "C13": "; hook-free stress of Group.Do on few keys (records recycled between keys) with stamped calls and invocations validated by TLC against SfStress.tla",
  "C14": "; hybrid caches built through the public builders validated by TLC against HybridApi.tla",
